@@ -44,17 +44,16 @@ def check(ctx):
     # same key on both sides
     expect_fn(ctx, "C07.3", "same-key/contains", "TypeSubstitutes::contains", "(Not(slice::is_empty(P1))&&HashMap::contains_key(P0.substitutes,P1))",
               "`contains` = non-empty key present in the substitute map", "scale_typegen")
+    # look-up + argument mapping (the private helper that applies the mapping is transparent: nested fn, closure or inline are the same term)
+    SUB = "HashMap::get(P0.substitutes,P1)?"
+    MAP = SUB + ".param_mapping"
+    S_ = MAP + "@TypeParamMapping::Specified.0"
+    REPL = "vec+(for(%s){if(let v1::Some($)=slice::get(P2,elem(%s).1)){(elem(%s).0,slice::get(P2,elem(%s).1)@v1::Some.0)}else{'()'}})" % (S_, S_, S_, S_)
+    PATH = "mut[%s.path;substitutes::replace_path_params_recursively(&self,%s,P3) if %s~TypeParamMapping::Specified($)&&Not(slice::is_empty(%s))]" % (SUB, REPL, MAP, REPL)
     expect_fn(ctx, "C07.3", "same-key/lookup", "TypeSubstitutes::for_path_with_params",
-              "Some(for_path_with_params::replace_params(HashMap::get(P0.substitutes,P1)?.path,P2,HashMap::get(P0.substitutes,P1)?.param_mapping,P3))",
-              "look-up in the same map with the same key; the rule's own path and mapping are used", "scale_typegen")
-    # argument mapping
-    S_ = "P2@TypeParamMapping::Specified.0"
-    REPL = "vec+(for(%s){if(let v1::Some($)=slice::get(P1,elem(%s).1)){(elem(%s).0,slice::get(P1,elem(%s).1)@v1::Some.0)}else{'()'}})" % (S_, S_, S_, S_)
-    PATH = "mut[P0;substitutes::replace_path_params_recursively(&self,%s,P3) if P2~TypeParamMapping::Specified($)&&Not(slice::is_empty(%s))]" % (REPL, REPL)
-    expect_fn(ctx, "C07.4", "mapping/apply", "for_path_with_params::replace_params",
-              "match(P2){TypeParamMapping::Specified($)=>type_path::TypePathType::Path{params:Vec::new(),path:%s};TypeParamMapping::PassThrough=>type_path::TypePathType::Path{params:P1,path:%s}}" % (PATH, PATH),
-              "PassThrough: substitute path + the resolved arguments unchanged, in order. Specified: each (ident, idx) is paired with params.get(idx) (identity, no arithmetic), "
-              "idents replaced inside the substitute path, no extra arguments appended", "scale_typegen")
+              "Some(match(%s){TypeParamMapping::Specified($)=>type_path::TypePathType::Path{params:Vec::new(),path:%s};TypeParamMapping::PassThrough=>type_path::TypePathType::Path{params:P2,path:%s}})" % (MAP, PATH, PATH),
+              "look-up in the same map with the same key; the rule's own path and mapping are used. PassThrough: substitute path + the resolved arguments unchanged, in order. "
+              "Specified: each (ident, idx) is paired with params.get(idx) (identity, no arithmetic), idents replaced inside the substitute path, no extra arguments appended", "scale_typegen")
     fn = q.fn1(P, "TypeSubstitutes::parse_path_param_mapping", "scale_typegen")
     if fn is None:
         ctx.bad("C07.6", "missing-anchor/parse_path_param_mapping", "", "parse_path_param_mapping not found")
